@@ -1,0 +1,49 @@
+//go:build verif
+
+// Contracts for package mustache (comment-only; read by /verif's VC generator).
+package mustache
+
+// ---- rendering (C03: a rendering or an error, never a panic; C19: rendering writes nothing) ------------------------
+//@ func (c *MustacheTemplate) GetVariable
+//@   requires c != nil
+//@   assigns nothing
+//@   nopanic
+//@   loop 0
+//@     invariant true
+//@ func (c *MustacheTemplate) isDefinedVariable
+//@   requires c != nil
+//@   assigns nothing
+//@   nopanic
+//@ func (c *MustacheTemplate) escapeString
+//@   assigns nothing
+//@   nopanic
+// every node of a parsed template: a token whose sub-tokens are nodes again (the tree the parser built)
+//@ func (c *MustacheTemplate) evaluateTokens
+//@   tags C03, C19
+//@   requires c != nil && (forall i int :: 0 <= i && i < len(tokens) ==> tokens[i] != nil && okNode(tokens[i]))
+//@   assigns nothing
+//@   nopanic
+//@   terminates assumed the recursion descends into the sub-tokens of a section, a finite tree built by the parser
+//@   loop 0
+//@     invariant -1 <= rangeindex && rangeindex < len(tokens)
+//@     decreases len(tokens) - rangeindex
+//
+//@ func (c *MustacheTemplate) EvaluateWithVariables
+//@   tags C03, C19
+//@   requires c != nil && c.parser != nil && (forall i int :: 0 <= i && i < len(c.parser.resultTokens) ==> c.parser.resultTokens[i] != nil && okNode(c.parser.resultTokens[i]))
+//@   assigns nothing
+//@   nopanic
+//@ func (c *MustacheTemplate) Evaluate
+//@   tags C03, C19
+//@   requires c != nil && c.parser != nil && (forall i int :: 0 <= i && i < len(c.parser.resultTokens) ==> c.parser.resultTokens[i] != nil && okNode(c.parser.resultTokens[i]))
+//@   assigns nothing
+//@   nopanic
+//
+// ---- setting a template (C03) -------------------------------------------------------------------------------------
+//@ func (c *MustacheTemplate) CreateVariables
+//@   requires c != nil && c.parser != nil && (variables != nil ==> deref(variables) != nil)
+//@   nopanic
+//@   loop 0
+//@     invariant -1 <= rangeindex && rangeindex < len(c.parser.variableNames) && (variables != nil ==> deref(variables) != nil)
+//@     invariant c.parser == old(c.parser) && c.parser.variableNames == old(c.parser.variableNames)
+//@     decreases len(c.parser.variableNames) - rangeindex
